@@ -143,6 +143,13 @@ func init() {
 				emit(b.marker, full, true)
 				emit(b.marker, less, true)
 			}
+			// {8200}: declared lengths far above the text held (long fills), for both layouts
+			if tt.Name == "UnstructuredAddenda" {
+				for _, al := range []string{"0149", "0300", "1100", "2068", "2069", "2500", "4200", "9000", "9999"} {
+					emit(own, []string{al, "Twenty characters ab"}, true)
+					emit(own, []string{al, ""}, true)
+				}
+			}
 			// parse every text produced, and mutations of them
 			var tl []string
 			for t := range texts {
